@@ -161,7 +161,7 @@ var props = map[string]propCfg{
 		Phases: []phase{{Engine: "iofault", Test: "TestC15", QuickChecks: 350, ThoroughChecks: 800}},
 		Real:   append(append([]string{}, commonReal...), "database/sql above the driver interface", "bufio inside encoding/csv"),
 		Stub:   []string{"io.Reader (SimReader with fault)", "io.Writer (SimWriter with fault / full disk)", "database/sql driver (SimDB with fault at call k)"},
-		Assume: []string{"driver.ErrBadConn may be absorbed by database/sql itself (it retries Stmt.Exec/Stmt.Query, not Tx.Exec), so for it only 'no error => nothing lost' is required; 'fault fired => error reported' is required for the opaque driver error, which database/sql hands to its caller on every path", "an error wrapping io.EOF may be read as end of stream: only 'no silent loss' is required for it", "data delivered together with an error: only 'no error => complete result' is required (encoding/json may legitimately finish on the data)", "cancellation of the Tx context is not injected (database/sql reacts on its own goroutine; not replayable)"},
+		Assume: []string{"driver.ErrBadConn may be absorbed by database/sql itself (it retries Stmt.Exec/Stmt.Query, not Tx.Exec), so for it only 'no error => nothing lost' is required; 'fault fired => error reported' is required for the opaque driver error, which database/sql hands to its caller on every path", "an error wrapping io.EOF may be read as end of stream: only 'no silent loss' is required for it", "a transient failure (the stub fails once and then works again) obliges the call to report an error only if something was lost: success with the complete, correct result is accepted", "data delivered together with an error: only 'no error => complete result' is required (encoding/json may legitimately finish on the data)", "cancellation of the Tx context is not injected (database/sql reacts on its own goroutine; not replayable)"},
 	},
 }
 
